@@ -1011,6 +1011,11 @@ func (fr *Frame) run(b, pred *ssa.BasicBlock, st *State, stop *ssa.BasicBlock) (
 				}
 				fr.applyAnnot(st, ann, fr.loopLabel(b)+":entry", true, false)
 				fr.havocLoop(st, b, body)
+				// "+ havoc g" on a loop: ghosts (and variables) named explicitly are arbitrary at the head of the
+				// arbitrary iteration too (a ghost accumulator updated in the body)
+				for _, h := range ann.Havoc {
+					fr.havocNamed(st, h, fr.loopLabel(b))
+				}
 				fr.bindIter(st, b, body, nil)
 				fr.applyAnnot(st, ann, "", false, true)
 				// "+ ghost-post g = e" on a loop: the value of e at the head of an arbitrary iteration (after the
